@@ -89,7 +89,7 @@ Init == /\ pc = "gen" /\ lat \in (LATS \cup LATS1)
         /\ npass = 0 /\ inp = <<>> /\ out = <<>>
 
 GroupOut(L, l) ==
-   LET symm == CheckBasisSymmetry(L, Lat(l)) IN
+   LET symm == TLCEval(CheckBasisSymmetry(L, Lat(l))) IN
    [ W |-> IF symm THEN [n \in 1..Len(L) |-> Reduced(L[n].R, Lat(l))] ELSE <<>>,
      symm |-> symm,
      symmreal |-> CheckRealBasisSymmetry(L, Lat(l)),
